@@ -207,7 +207,7 @@ CHECKS = {
         rule="rapid-generated layered model graphs over the HDF5 stand-in: 1-4 model types from a pool of 20 models whose kernels accept any non-negative input plus the two table-parameter models (RatingCurvePartition, Storage: tables of different lengths per node, padded in the parameter dataset; always with stored inputs and never a link destination because their kernels only accept inputs inside their tables), 1-5 generations, 0-4 nodes per (model, generation) including empty batches and models absent from generation 0, links only forward in generation order (several links into one input, fan-out), models with and without a stored inputs dataset, T=1..20, flags -overwrite (with a stale output file), -outputs-for/-no-outputs-for/-inputs-for/-no-inputs-for subsets, separate parameter / initial-state / time-series / final-state files, no output file, and delays injected at the stand-in's read / write calls; the real run_simulation is called in-process (sources mapped by -overlay); "
              "oracle: an independent sequential interpreter (generations in order; node input = stored input or zeros + sum of linked source outputs; each node run alone through the catalogue) compared bit-for-bit with /MODELS/<m>/{outputs,states,inputs} row by row, datasets present exactly when selected, and from the stand-in's call log every (model, generation, dataset) block written exactly once at its batch offset before run_simulation returns. "
              "Non-trivial = >= 2 generations and a link whose destination has a stored input or another incoming link, or a table-parameter model with a generation that does not hold its longest table; distinct = distinct graph",
-        assumptions=["HDF5 stand-in (see C08) is the trusted base", "not covered: -outputs model=file (re-executes the binary as a -writer sub-process) and the protobuf writer", "the /LINKS dataset always exists (possibly with zero rows)"],
+        assumptions=["HDF5 stand-in (see C08) is the trusted base", "-outputs model=file (ow-sim re-executes its binary as a -writer sub-process fed through protobuf; here the test binary serves that role) is exercised in one case of eight that has an output file, for models with nodes in the last generation (otherwise ow-sim never closes the writer pipe); final states of a split model are not part of the stream and are not asserted", "the /LINKS dataset always exists (possibly with zero rows)"],
         quick=dict(stages=[st(25, shards=8, run="TestSimulationEqualsSequentialReference", timeout=900, env={"VERIF_PROPERTY": "C07"})]),
         thorough=dict(stages=[st(1000, shards=16, run="TestSimulationEqualsSequentialReference", timeout=3500, env={"VERIF_PROPERTY": "C07"})]),
     ),
